@@ -12,6 +12,7 @@ import (
 	"context"
 	"errors"
 	"fmt"
+	"os"
 	"strings"
 	"sync/atomic"
 
@@ -45,6 +46,10 @@ func mainShapes() []shape {
 		{"send-blocked", "ch := chan()\nch <- 1"},
 		{"range-chan-blocked", "ch := chan()\nfor v in ch { tick() }"},
 		{"wait-blocked", "t := spawn(func() { c := chan()\n <-c })\nt.wait()"},
+		// waiting, in a later invocation with its own context, for a thread that an earlier invocation
+		// started under another context (mode "cross" only): the cancellation of the waiter's context
+		// ends the wait although nothing ends the thread
+		{"wait-on-thread-of-an-earlier-run", "t.wait()"},
 		{"sleep", "time.sleep(3600)"},
 		{"loop-in-map-callback", "[1, 2, 3].map(func(x) { for { tick() } })"},
 		{"loop-in-each-callback", "[1, 2].each(func(x) { for { tick() } })"},
@@ -89,7 +94,12 @@ type state struct {
 	idleCancel     bool
 	cancelIssued   int32
 	pointsAtCancel int32
+	ctxA           context.Context    // mode "cross": the context of the earlier invocation
+	cleanup        context.CancelFunc // mode "cross": ends the earlier invocation's thread once the scenario is over
 }
+
+// whenBlocked as cancellation instant: the canceller waits until the main task is blocked.
+const whenBlocked = 1 << 20
 
 type caseT struct {
 	Child, Main shape
@@ -104,6 +114,12 @@ func (c caseT) name() string {
 	m := ""
 	if c.Mode != "" {
 		m = " [" + c.Mode + " on a reused VM, same context]"
+		if c.Mode == "cross" {
+			m = " [a Call under its own context on a VM whose earlier run, under another context, started the thread]"
+		}
+	}
+	if c.K >= whenBlocked {
+		return fmt.Sprintf("%s + %s, cancel when the main task has blocked%s", c.Child.Name, c.Main.Name, m)
 	}
 	return fmt.Sprintf("%s + %s, cancel at main point %d%s", c.Child.Name, c.Main.Name, c.K, m)
 }
@@ -120,6 +136,14 @@ func runReused(st *state, src, mode string) rt.Outcome {
 	if mode == "call" {
 		body = "func entry() {\n" + src + "\n}\n0"
 	}
+	runCtx := st.ctx
+	if mode == "cross" {
+		// the first RunCode runs under a context of its own that is never cancelled during the scenario
+		body = "t := spawn(func() { c := chan()\n <-c })\nfunc entry() {\n" + src + "\n}\n0"
+		var stop context.CancelFunc
+		runCtx, stop = context.WithCancel(context.Background())
+		st.ctxA, st.cleanup = runCtx, stop
+	}
 	code, o2 := st.env.Compile(body)
 	if code == nil {
 		return o2
@@ -129,13 +153,13 @@ func runReused(st *state, src, mode string) rt.Outcome {
 		o.Stage, o.Err, o.ErrText = "run", err, err.Error()
 		return o
 	}
-	if err := m.Run(st.ctx); err != nil {
+	if err := m.Run(runCtx); err != nil {
 		return fail(err)
 	}
-	if err := m.RunCode(st.ctx, code); err != nil {
+	if err := m.RunCode(runCtx, code); err != nil {
 		return fail(err)
 	}
-	if mode == "call" {
+	if mode == "call" || mode == "cross" {
 		f, err := m.Get("entry")
 		if err != nil {
 			return fail(err)
@@ -199,6 +223,9 @@ func (c caseT) scenario() *dsched.Scenario {
 			if c.Mode != "" {
 				st.out = runReused(st, src, c.Mode)
 				atomic.StoreInt32(&st.returned, 1)
+				if st.cleanup != nil {
+					x.Cancel(st.ctxA, st.cleanup) // the thread of the earlier invocation is not this scenario's subject
+				}
 				return
 			}
 			code, o := st.env.Compile(src)
@@ -216,6 +243,11 @@ func (c caseT) scenario() *dsched.Scenario {
 				k := c.K
 				idle := x.EnvGateOrIdle("cancel", func() bool {
 					m := x.Task(0)
+					if k >= whenBlocked {
+						// the cancellation comes when the main task has blocked (or ended), however many
+						// instructions that takes
+						return m != nil && (m.Ended() || x.Blocked(m))
+					}
 					return m != nil && (m.Points >= k || m.Ended())
 				})
 				st.idleCancel = idle
@@ -322,17 +354,34 @@ func Check(r *ev.Run, replay string) {
 				if idx%nShards != shard {
 					continue
 				}
-				for _, mode := range []string{"", "rerun", "call"} {
+				if only := os.Getenv("VERIF_C06_MAIN"); only != "" && only != mn.Name {
+					continue
+				}
+				modes := []string{"", "rerun", "call"}
+				if mn.Name == "wait-on-thread-of-an-earlier-run" {
+					if ci != 0 {
+						continue
+					}
+					modes = []string{"cross"}
+				}
+				for _, mode := range modes {
 					if mode == "call" && mn.Name == "mutual-recursion" {
 						continue // forward references between named functions only exist at the top level
 					}
-					if mode != "" && (ci > 1 || (!r.Thorough() && mi%2 == 1)) {
+					if mode != "" && mode != "cross" && (ci > 1 || (!r.Thorough() && mi%2 == 1)) {
 						continue // reused-VM modes: without children and with the go-looping child; quick: every other main shape
 					}
+					ks := []int{}
 					for k := 0; k <= maxK; k++ {
 						if !r.Thorough() && k > 3 && k%2 == 1 {
 							continue
 						}
+						ks = append(ks, k)
+					}
+					if ci == 0 && (strings.Contains(mn.Name, "blocked") || strings.HasPrefix(mn.Name, "wait-") || mn.Name == "sleep") {
+						ks = append(ks, whenBlocked) // and once the main task has blocked
+					}
+					for _, k := range ks {
 						c := caseT{ch, mn, k, mode}
 						sc := c.scenario()
 						b := bound
@@ -386,7 +435,7 @@ func Check(r *ev.Run, replay string) {
 func finish(r *ev.Run, bound, maxK int) {
 	r.Set("deviation_bound", bound)
 	r.Set("max_cancellation_instant", maxK)
-	r.Set("rule", fmt.Sprintf("child prefixes x main shapes x cancellation instants 0..%d (the canceller's gate opens when the main task has taken k scheduling points = VM instructions, or when the system is idle) x every schedule with at most %d deviations (delayed cancel, preempted watcher/child/main; thorough: 2 up to instant 8 and 1 beyond; the reused-VM modes - RunCode and Call on a VM that already ran with the same context - with at most 1 and up to instant 12); fairness 4 bounds spinning; horizon 60 decisions after the evaluation returned", maxK, bound))
+	r.Set("rule", fmt.Sprintf("child prefixes x main shapes x cancellation instants 0..%d (the canceller's gate opens when the main task has taken k scheduling points = VM instructions, or when the system is idle; for the main shapes that block, also the instant at which the main task has blocked, however many instructions that takes) x every schedule with at most %d deviations (delayed cancel, preempted watcher/child/main; thorough: 2 up to instant 8 and 1 beyond; the reused-VM modes - RunCode and Call on a VM that already ran with the same context - with at most 1 and up to instant 12); fairness 4 bounds spinning; horizon 60 decisions after the evaluation returned", maxK, bound))
 }
 
 func signature(ch, mn shape, v string) string {
